@@ -44,6 +44,9 @@ def gen(rng, kind):
         if rng.random() < 0.5:
             src = rng.randrange(nrepl)
             msgs.append({"m": "full", "r": rng.randrange(nrepl), "entries": [{"k": kk, "from": src, "bad": ""} for kk in keys if rng.random() < 0.8]})
+    pre = len(msgs)
+    for k in keys:      # oracle reference: the join of all replicas' values before the exchange rounds
+        msgs.append({"m": "mergeall", "r": 0, "k": k})
     for _round in range(2):
         pairs = [(a, b) for a in range(nrepl) for b in range(nrepl) if a != b]
         rng.shuffle(pairs)
@@ -53,7 +56,7 @@ def gen(rng, kind):
     for r in range(nrepl):
         for k in keys:
             msgs.append({"m": "get", "r": r, "k": k})
-    return {"ttl": HOUR, "nrepl": nrepl, "kind": kind, "msgs": msgs, "final": final, "keys": keys, "sums": None}
+    return {"ttl": HOUR, "nrepl": nrepl, "kind": kind, "msgs": msgs, "final": final, "keys": keys, "sums": None, "pre": pre}
 
 
 def run(ctx, viol):
@@ -84,8 +87,16 @@ def run(ctx, viol):
         for m, st in list(zip(h["msgs"], o["steps"]))[h["final"]:]:
             finals.setdefault(m["k"], []).append((m["r"], st["resp"]))
         rep = {"history": {"ttl": h["ttl"], "nrepl": h["nrepl"], "msgs": h["msgs"]}}
+        want = {}
+        if h.get("pre") is not None:
+            for j, k in enumerate(h["keys"]):
+                want[k] = o["steps"][h["pre"] + j]["resp"]
         for k, rs in finals.items():
             vals = [r[1] for r in rs]
+            if k in want and any(v[1][:2] != want[k][1][:2] if v != [3, []] and want[k] != [3, []] else v != want[k] for v in vals):
+                viol("replicator:%s:differs-from-merge-of-full-states" % h["kind"],
+                     "k%d: after the full-state exchange replicas expose %s, the merge of the replicas' states before the exchange exposes %s" % (k, [v[1][1] if v != [3, []] else None for v in vals], want[k][1][1] if want[k] != [3, []] else None), rep)
+                continue
             if any(v != vals[0] for v in vals):
                 viol("replicator:%s:replicas-diverge" % h["kind"], "after every update reached every replica, replicas expose different values for k%d: %s" % (k, vals), rep)
             elif h["sums"] is not None and vals[0] != [3, []] and vals[0][1][1] != h["sums"][k] % 2 ** 64:
@@ -95,6 +106,8 @@ def run(ctx, viol):
         distinct.add(canon_hash([h["kind"], [st["state"] for st in o["steps"][h["final"]:]]]))
         items, wants, n_outs = [], [], 0
         for m, st in zip(h["msgs"], o["steps"]):
+            if m["m"] == "mergeall":
+                continue
             items.append(c41.hmsg_coq(m, st, n_outs, h["ttl"]))
             wants.append([st["state"], st["out"], st["resp"]])
             n_outs += len(st["out"])
